@@ -1082,6 +1082,9 @@ func rulePanic(sc panicScope) ruleFn {
 			} else if why2, ok2 := r.chunkSliceProver(fn, path[0].(ast.Expr)); ok2 {
 				r.OK("R7.P1", name, construct, site, why2)
 				continue
+			} else if why2, ok2 := r.positionalReducerProver(fn, path[0].(ast.Expr)); ok2 {
+				r.OK("R7.P1", name, construct, site, why2)
+				continue
 			} else if reason, tabled := useTable(r, boundsTable, name+"/"+construct); tabled {
 				r.Tabled("R7.P1", name, construct, site, "bounds", reason)
 				continue
@@ -1970,7 +1973,188 @@ func ifaceCompareRisk(x *ssa.BinOp) (string, bool) {
 	if safe(x.X) || safe(x.Y) {
 		return "", false
 	}
+	// one operand is known to hold a comparable dynamic type where the comparison runs: a
+	// type switch / comma-ok assertion of that very value to comparable types dominates it
+	// (== is then false for any other dynamic type of the other side, and never panics)
+	if dynComparableAt(x.X, x.Block()) || dynComparableAt(x.Y, x.Block()) {
+		return "", false
+	}
 	return "neither side is nil, a constant, a conversion from a comparable type or a package-level sentinel", true
+}
+
+// positionalReducerProver: `acc[value.F]` in the reduce function of an AsyncMapReduce call
+// whose payload is lo.Range(n), whose accumulator is made with the same n slots, whose every
+// successful worker return hands back a value with F stored from the worker's index, and whose
+// reducer hands its accumulator on unchanged. Computed on the values: neither the name of the
+// carrying field nor the position of the closures matters.
+func (r *Run) positionalReducerProver(fn *ssa.Function, e ast.Expr) (string, bool) {
+	ie, ok := e.(*ast.IndexExpr)
+	if !ok || fn.Parent() == nil || len(fn.Params) != 2 {
+		return "", false
+	}
+	var ia *ssa.IndexAddr
+	for _, ins := range allInstrs(fn) {
+		if x, ok := ins.(*ssa.IndexAddr); ok && x.Pos() == ie.Lbrack {
+			ia = x
+		}
+	}
+	if ia == nil || ia.X != ssa.Value(fn.Params[0]) {
+		return "", false
+	}
+	ld, ok := ia.Index.(*ssa.UnOp)
+	if !ok || ld.Op != token.MUL {
+		return "", false
+	}
+	fa, ok := ld.X.(*ssa.FieldAddr)
+	if !ok || fa.X != ssa.Value(fn.Params[1]) || fieldOf(fa) == nil {
+		return "", false
+	}
+	carrier := fieldOf(fa)
+	call, mapF, redF := r.amrSite(fn.Parent())
+	if call == nil || mapF == nil || redF != fn || len(mapF.Params) != 1 || len(call.Call.Args) != 4 {
+		return "", false
+	}
+	// the reducer hands on the accumulator it was given
+	for _, ret := range returnsOf(fn) {
+		vals := retVals(ret)
+		if len(vals) != 1 || viaCell(unwrap(vals[0])) != ssa.Value(fn.Params[0]) {
+			return "", false
+		}
+	}
+	// payload lo.Range(n), accumulator make(T, n): the same n
+	rc, ok := unwrap(call.Call.Args[0]).(*ssa.Call)
+	if !ok || !strings.HasSuffix(strings.SplitN(calleeName(&rc.Call), "[", 2)[0], "lo.Range") || len(rc.Call.Args) != 1 {
+		return "", false
+	}
+	mk, ok := unwrap(call.Call.Args[1]).(*ssa.MakeSlice)
+	if !ok || !sameCount(rc.Call.Args[0], mk.Len) {
+		return "", false
+	}
+	// every successful worker return carries the worker's index in the field
+	idx := ssa.Value(mapF.Params[0])
+	nRet := 0
+	for _, ret := range returnsOf(mapF) {
+		vals := retVals(ret)
+		if len(vals) != 2 {
+			return "", false
+		}
+		if !isNilConst(unwrap(vals[1])) {
+			continue // a failed worker: AsyncMapReduce does not reduce its value
+		}
+		v := unwrap(vals[0])
+		if v.Referrers() == nil {
+			return "", false
+		}
+		carried := false
+		for _, ref := range *v.Referrers() {
+			fb, ok := ref.(*ssa.FieldAddr)
+			if !ok || fb.X != v || fieldOf(fb) != carrier {
+				continue
+			}
+			for _, r2 := range *fb.Referrers() {
+				st, ok := r2.(*ssa.Store)
+				if !ok || st.Addr != ssa.Value(fb) {
+					continue
+				}
+				if unwrap(st.Val) != idx {
+					return "", false
+				}
+				if instrDominates(st, ret) {
+					carried = true
+				}
+			}
+		}
+		if !carried {
+			return "", false
+		}
+		nRet++
+	}
+	if nRet == 0 {
+		return "", false
+	}
+	return "positional reducer: the workers run over lo.Range(n), the accumulator is made with the same n slots, every successful worker result carries the worker's index in ." + carrier.Name() + " (" + strconv.Itoa(nRet) + " return(s) checked) and the reducer hands its accumulator on", true
+}
+
+// sameCount: two integer values that are the same number — the same SSA value (possibly read
+// back from a single-assignment cell), or len() of the same list.
+func sameCount(a, b ssa.Value) bool {
+	a, b = viaCell(unwrap(a)), viaCell(unwrap(b))
+	if a == b {
+		return true
+	}
+	lenArg := func(v ssa.Value) ssa.Value {
+		c, ok := v.(*ssa.Call)
+		if !ok {
+			return nil
+		}
+		if bi, ok := c.Call.Value.(*ssa.Builtin); !ok || bi.Name() != "len" {
+			return nil
+		}
+		return viaCell(c.Call.Args[0])
+	}
+	la, lb := lenArg(a), lenArg(b)
+	return la != nil && lb != nil && (la == lb || sameValue(la, lb))
+}
+
+// dynComparableAt: every path from the entry of the function to block b takes the success
+// edge of a comma-ok type assertion (a clause of a type switch) of the interface value v to a
+// comparable, non-interface type: inside b the dynamic type of v is comparable.
+func dynComparableAt(v ssa.Value, b *ssa.BasicBlock) bool {
+	if ci, ok := v.(*ssa.ChangeInterface); ok {
+		v = ci.X
+	}
+	fn := b.Parent()
+	if fn == nil || len(fn.Blocks) == 0 {
+		return false
+	}
+	type edge struct{ from, to *ssa.BasicBlock }
+	cert := map[edge]bool{}
+	for _, ins := range allInstrs(fn) {
+		iff, ok := ins.(*ssa.If)
+		if !ok {
+			continue
+		}
+		ex, ok := iff.Cond.(*ssa.Extract)
+		if !ok || ex.Index != 1 {
+			continue
+		}
+		ta, ok := ex.Tuple.(*ssa.TypeAssert)
+		if !ok || !ta.CommaOk {
+			continue
+		}
+		tx := ta.X
+		if ci, ok := tx.(*ssa.ChangeInterface); ok {
+			tx = ci.X
+		}
+		if tx != v || types.IsInterface(ta.AssertedType) || !types.Comparable(ta.AssertedType) {
+			continue
+		}
+		bl := iff.Block()
+		if len(bl.Succs) == 2 && bl.Succs[0] != bl.Succs[1] {
+			cert[edge{bl, bl.Succs[0]}] = true
+		}
+	}
+	if len(cert) == 0 {
+		return false
+	}
+	// is b reachable from the entry without a certifying edge?
+	seen := map[*ssa.BasicBlock]bool{fn.Blocks[0]: true}
+	work := []*ssa.BasicBlock{fn.Blocks[0]}
+	for len(work) > 0 {
+		x := work[len(work)-1]
+		work = work[:len(work)-1]
+		if x == b {
+			return false
+		}
+		for _, s := range x.Succs {
+			if cert[edge{x, s}] || seen[s] {
+				continue
+			}
+			seen[s] = true
+			work = append(work, s)
+		}
+	}
+	return true
 }
 
 // chunkSliceProver: the slice `inputs[i*m : hi]` in the chunk body of MultiOpQueryer.Query (the
